@@ -77,6 +77,13 @@ def _config(n_towers, n_time, nx, ny, forcing, tstype, rs):
             met["wind_dir"][(k_ * 7) % n_time] = special
     if forcing in ("ustar", "both"):
         met["ustar"] = [float(x) for x in rs.uniform(0.1, 0.9, n_time)]
+    # values as they are typed in a YAML file: whole numbers come out as Python ints, also as the FIRST entry of a series
+    # whose later entries are fractional (`wind_speed: [5, 5.5, 6.25]`)
+    if rs.uniform() < 0.4 and n_time > 0:
+        for key in ("mol", "wind_speed", "wind_dir"):
+            met[key][0] = int(round(met[key][0])) or 1
+            if n_time > 2:
+                met[key][n_time // 2] = int(round(met[key][n_time // 2])) or 2
     if forcing in ("z0", "both"):
         met["z0"] = float(rs.uniform(0.01, 0.5))
     if tstype == "str":
